@@ -5,12 +5,12 @@ from props.c02 import parse_bv, tok_bv, parse_ranges, tok_ranges
 
 
 def parse_snap(st):
-    m = re.match(r"own\[(.*?)\] a5\[(.*?)\] d=(\S+) g=(\S*) s=(\S*) own_rows=(\S*) a5_rows=(\S*) buf=(\S*)(?: ack=(\S+))?", st.strip())
+    m = re.match(r"own\[(.*?)\] a5\[(.*?)\] d=(\S+) g=(\S*) s=(\S*) own_rows=(\S*) a5_rows=(\S*) buf=(\S*)(?: live5\[(.*?)\])?(?: ack=(\S+))?", st.strip())
     if not m:
         return None
     return dict(own=m.group(1), a5=m.group(2), d=m.group(3), g=m.group(4), s=m.group(5),
                 own_rows=[x for x in m.group(6).split(",") if x], a5_rows=[x for x in m.group(7).split(",") if x],
-                buf=[x for x in m.group(8).split(",") if x], ack=m.group(9))
+                buf=[x for x in m.group(8).split(",") if x], live=m.group(9), ack=m.group(10))
 
 
 class C06(flow.Spec):
@@ -184,6 +184,29 @@ class C06(flow.Spec):
                 if held and complete_partial and not all(r in p["a5_rows"] for r in rows):
                     have = {int(x.split(":")[1]) for x in p["buf"] if x.split(":")[0] == str(v)}
                     if not all((int(r) - v * 1000 - 100) in have for r in rows if int(r) - v * 1000 >= 100):
+                        return False
+            # (3) every buffered row of a version the reload lists as partial has its sequence record
+            pcov = {}
+            for v, last, rs_ in parts:
+                c = set()
+                for a, b in rs_:
+                    c |= set(range(a, b + 1))
+                pcov[v] = c
+            for x in p["buf"]:
+                v, q = map(int, x.split(":"))
+                if v in pcov and q not in pcov[v]:
+                    return False
+                if v not in pcov and not (mx != -1 and v <= mx and v not in needed):
+                    return False      # buffered rows of a version the reload knows nothing about
+            # (4) what the live node advertised as received at this instant is not lost by the reload
+            if p.get("live") not in (None, "-", ""):
+                ln, lmx, lparts = parse_bv(p["live"])
+                for v, last, rs_ in lparts:
+                    lc = set()
+                    for a, b in rs_:
+                        lc |= set(range(a, b + 1))
+                    held_after = mx != -1 and v <= mx and v not in needed and v not in pcov
+                    if not held_after and not lc <= pcov.get(v, set()):
                         return False
         rs = [s for s in steps if s.startswith("RESTART")]
         if case.strip().endswith(" 1"):
